@@ -25,3 +25,36 @@ Print Assumptions C09_pool_results_agree.
 Print Assumptions C09_pool_completion.
 Print Assumptions C09_pool_schedule_extends.
 Print Assumptions C09_pool_root_minimax.
+
+(* ---- chess instance, closed (Closed.v): the only hypotheses are the executable invariant
+   Reach.Sound of the position searched, a sound initial cache (the empty one is), and that the
+   64-bit key is collision-free on the boards the search visits ---- *)
+From Coq Require Import NArith.
+From ChessV Require Import Types Board Moves MoveGen Search Congr.
+From ChessV Require Reach Closed SearchLink SearchCacheIx.
+Open Scope N_scope.
+
+Theorem C09_closed_every_schedule : forall T rook_t bishop_t depth b0 v m b1 c0 sch,
+  collision_free (Closed.searched T rook_t bishop_t b0) ->
+  1 <= depth -> Reach.Sound T rook_t bishop_t (N.to_nat depth) b0 ->
+  search T rook_t bishop_t depth b0 = SOk (v, m, b1) ->
+  Closed.cache_ok T rook_t bishop_t (Closed.searched T rook_t bishop_t b0) c0 ->
+  let mx := maximize (turn b0) in
+  Search.mm T rook_t bishop_t (N.to_nat depth) b0 mx = Ok v /\
+  exists sch' ws,
+    snd (Interleave.run_sched SearchLink.skey SearchLink.skey_eqb (sch ++ sch')
+           (Interleave.root_pool board SearchLink.skey (SearchLink.children T rook_t bishop_t)
+              (SearchLink.leaf T rook_t bishop_t) I16_MIN I16_MAX SearchLink.mkkey
+              c0 (Nat.pred (N.to_nat depth)) (negb mx) I16_MIN I16_MAX
+              (SearchLink.children T rook_t bishop_t b0)))
+      = map Interleave.Ret ws /\
+    v = (if mx then fold_left Z.max ws I16_MIN else fold_left Z.min ws I16_MAX).
+Proof. exact Closed.C09_closed. Qed.
+
+Check @Closed.C09_any_schedule.
+Check @Closed.C09_root_minimax.
+Check @Closed.cache_ok_nil.
+
+Print Assumptions C09_closed_every_schedule.
+Print Assumptions Closed.C09_any_schedule.
+Print Assumptions Closed.C09_root_minimax.
